@@ -313,6 +313,87 @@ Proof.
   destruct (follow ps init hs [init] false targets) as [l e]. cbn [fst length] in *. lia.
 Qed.
 
+(* --- the policies' verdicts at chain level: what every request on the wire satisfies --- *)
+
+Lemma follow_sent_permitted ps init hs : forall targets via strip s,
+  In s (fst (follow ps init hs via strip targets)) ->
+  exists ext, all_permit ps (s_host s) (via ++ ext) = true.
+Proof.
+  induction targets as [|t rest IH]; intros via strip s; cbn [follow].
+  - cbn. tauto.
+  - destruct (all_permit ps t via) eqn:Hp; [|cbn; tauto].
+    destruct (follow ps init hs (via ++ [t]) (strip || negb (bytes_eqb init t) && negb (should_copy init t)) rest)
+      as [l e] eqn:Ef.
+    cbn [fst]. intros [Hs | Hs].
+    + subst s. cbn [s_host]. exists []. now rewrite app_nil_r.
+    + specialize (IH (via ++ [t]) (strip || negb (bytes_eqb init t) && negb (should_copy init t)) s).
+      rewrite Ef in IH. cbn [fst] in IH. destruct (IH Hs) as [ext He].
+      exists ([t] ++ ext). now rewrite app_assoc.
+Qed.
+
+(* every redirected request of a chain was permitted by every policy, with the chain's own first
+   request as origin *)
+Lemma chain_sent_permitted ps init hs targets s :
+  In s (tl (fst (run_chain ps init hs targets))) ->
+  exists ext, all_permit ps (s_host s) (init :: ext) = true.
+Proof.
+  unfold run_chain. destruct (follow ps init hs [init] false targets) as [l e] eqn:Ef.
+  cbn [fst tl]. intros Hs.
+  assert (H : In s (fst (follow ps init hs [init] false targets))) by now rewrite Ef.
+  apply follow_sent_permitted in H as [ext He]. now exists ext.
+Qed.
+
+(* redirects disabled: nothing but the first request is ever sent *)
+Lemma chain_disabled ps init hs targets :
+  In PNo ps -> fst (run_chain ps init hs targets) = [{| s_host := init; s_hdrs := hs |}].
+Proof.
+  intros Hin. unfold run_chain. destruct targets as [|t rest]; [reflexivity|]. cbn [follow].
+  destruct (all_permit ps t [init]) eqn:Hp; [|reflexivity].
+  apply composition_is_conjunction with (p := PNo) in Hp; [discriminate Hp|assumption].
+Qed.
+
+Lemma chain_same_host ps init hs targets s :
+  In PSameHost ps -> In s (fst (run_chain ps init hs targets)) ->
+  get_hostname (s_host s) = get_hostname init.
+Proof.
+  intros Hin Hs. assert (Hc : s = {| s_host := init; s_hdrs := hs |} \/ In s (tl (fst (run_chain ps init hs targets)))).
+  { unfold run_chain in *. destruct (follow ps init hs [init] false targets) as [l e].
+    cbn [fst tl] in *. destruct Hs as [Hs|Hs]; [left; now symmetry|now right]. }
+  destruct Hc as [->|Hc]; [reflexivity|].
+  apply chain_sent_permitted in Hc as [ext He].
+  apply composition_is_conjunction with (p := PSameHost) in He; [|assumption].
+  cbn [permits hd] in He. now apply bytes_eqb_eq in He.
+Qed.
+
+Lemma chain_same_domain ps init hs targets s :
+  In PSameDomain ps -> In s (fst (run_chain ps init hs targets)) ->
+  get_domain (s_host s) = get_domain init.
+Proof.
+  intros Hin Hs. assert (Hc : s = {| s_host := init; s_hdrs := hs |} \/ In s (tl (fst (run_chain ps init hs targets)))).
+  { unfold run_chain in *. destruct (follow ps init hs [init] false targets) as [l e].
+    cbn [fst tl] in *. destruct Hs as [Hs|Hs]; [left; now symmetry|now right]. }
+  destruct Hc as [->|Hc]; [reflexivity|].
+  apply chain_sent_permitted in Hc as [ext He].
+  apply composition_is_conjunction with (p := PSameDomain) in He; [|assumption].
+  cbn [permits hd] in He. now apply bytes_eqb_eq in He.
+Qed.
+
+Lemma chain_allowed_host ps init hs targets l s :
+  In (PAllowedHost l) ps -> In s (tl (fst (run_chain ps init hs targets))) ->
+  mem_bytes (get_hostname (s_host s)) (map (fun h => to_lower (get_hostname h)) l) = true.
+Proof.
+  intros Hin Hc. apply chain_sent_permitted in Hc as [ext He].
+  apply composition_is_conjunction with (p := PAllowedHost l) in He; [|assumption]. exact He.
+Qed.
+
+Lemma chain_allowed_domain ps init hs targets l s :
+  In (PAllowedDomain l) ps -> In s (tl (fst (run_chain ps init hs targets))) ->
+  mem_bytes (get_domain (s_host s)) (map (fun h => to_lower (get_domain h)) l) = true.
+Proof.
+  intros Hin Hc. apply chain_sent_permitted in Hc as [ext He].
+  apply composition_is_conjunction with (p := PAllowedDomain l) in He; [|assumption]. exact He.
+Qed.
+
 (* --- headers --- *)
 
 Lemma carry_in ps strip hs n k :
